@@ -299,6 +299,17 @@ class Report:
         return 1 if self.violations else 0
 
 
+class DriverCrash(Exception):
+    """A driver crashed while replaying a scenario; `text` holds the worker's traceback. main_wrap decides by where it was raised."""
+
+    def __init__(self, what, text):
+        super().__init__(what)
+        self.text = text
+
+    def __reduce__(self):
+        return (DriverCrash, (self.args[0], self.text))
+
+
 def main_wrap(fn):
     """Run a check's main(); machinery failures exit 2 and never print VIOLATION."""
     try:
@@ -327,7 +338,26 @@ def main_wrap(fn):
         raise
     except BaseException as e:      # a crash of the machinery itself is never reported as a verdict (exit 1 is reserved for violations)
         import traceback
-        traceback.print_exc()
+        text = "".join(traceback.format_exception(type(e), e, e.__traceback__))
+        if isinstance(e, DriverCrash):
+            text += "\n" + e.text
+        cause = getattr(e, "__cause__", None)
+        if cause is not None:
+            text += str(cause)                      # multiprocessing's RemoteTraceback: the worker's frames
+        sys.stderr.write(text)
+        # WHERE it was raised decides: the last frame inside the library under test = a public call made by a driver along a
+        # model-generated scenario raised where every run on the unchanged tree returns (the drivers catch the outcomes the models expect);
+        # the last frame in the machinery = a machinery failure
+        import re as _re
+        files = _re.findall(r'File "([^"]+)", line \d+', text)
+        lib = os.path.join(REPO, "src") + os.sep
+        rep = Report.current
+        if files and files[-1].startswith(lib) and rep is not None and not isinstance(e, (KeyboardInterrupt, MemoryError)):
+            path = write_replay(rep.pid, {"property": rep.pid, "signature": "LibraryRaisedInDriver", "traceback": text[-4000:], "tier": tier(), "seed": seed()})
+            print("VIOLATION property=%s replay=%s  # LibraryRaisedInDriver %s: %s raised inside %s on a scenario every unchanged-tree run completes"
+                  % (rep.pid, path, type(e).__name__, " ".join(str(e).split())[:200], files[-1][len(lib):]), flush=True)
+            print("%s: FAIL tier=%s (the library raised inside a driver)" % (rep.pid, tier()), flush=True)
+            sys.exit(1)
         print("MACHINERY-FAILURE: %s: %s" % (type(e).__name__, e), file=sys.stderr, flush=True)
         sys.exit(2)
     sys.exit(rc)
